@@ -121,7 +121,45 @@ def decoders(ctx, facts, siblings=True):
                         ok = not (oks & b.reachable(ed[1]))
                     ctx.ob("GUARD-decode", "Boolean", ok, "bytes other than 0 and 1 are rejected" if ok else f"Boolean decoder accepts bytes beyond 1 (guard `{e[1]} {e[3][1]}`)", site_of(b, bb))
         if not ok and not any(o.instance == "Boolean" for o in ctx.obs if o.rule == "GUARD-decode"):
-            ctx.ob("GUARD-decode", "Boolean", False, "no range check in Boolean::deserialize", site_of(b))
+            # any other way of writing it (`match buf[0] { 0 => Ok(false), 1 => Ok(true), other => Err(..) }`): follow the
+            # branches for every byte value 0..255 - each test is a comparison of, or a switch on, the input byte - and see
+            # whether an Ok is built on the way to the return
+            from rules.C13 import ieval, beval, NoEval
+            def subst(e, v):
+                if not isinstance(e, tuple) or not e:
+                    return e
+                if e[0] in ("proj", "call", "arg", "place") and "('arg', 1" in str(e) and e[0] != "call" or (e[0] == "call" and re.search(r"Index::index$|Deref::deref$", e[1]) and "('arg', 1" in str(e)):
+                    return ("const", v)
+                return tuple(subst(x, v) if isinstance(x, tuple) else x for x in e)
+            oks_ = set(malsec.ok_blocks(b))
+            accepted, undecided = set(), False
+            try:
+                for v in range(256):
+                    bb, seen, hit_ok = 0, set(), False
+                    while bb not in seen:
+                        seen.add(bb)
+                        hit_ok = hit_ok or bb in oks_
+                        t = b.term(bb)
+                        if t["k"] == "ret":
+                            break
+                        if t["k"] == "switch":
+                            e = subst(flow.expr_of(b, t["o"], max_depth=12), v)
+                            try:
+                                val = ieval(e, {})
+                            except NoEval:
+                                val = int(beval(e, {}))
+                            bb = next((tgt for x, tgt in t["ts"] if int(x) == val), t["else"])
+                            continue
+                        nxt = [x for x in b.succs(bb) if b.term(x)["k"] not in ("resume",)]
+                        if len(nxt) != 1 and t["k"] != "assert":
+                            raise NoEval("branching terminator " + t["k"])
+                        bb = t.get("t") if t["k"] in ("assert", "call", "drop") and t.get("t") is not None else nxt[0]
+                    if hit_ok:
+                        accepted.add(v)
+            except (NoEval, KeyError, TypeError, StopIteration):
+                undecided = True
+            ok = not undecided and accepted == {0, 1}
+            ctx.ob("GUARD-decode", "Boolean", ok, "bytes other than 0 and 1 are rejected (evaluated for all 256 byte values)" if ok else ("no range check in Boolean::deserialize" if undecided else f"Boolean decoder accepts the byte values {sorted(accepted)[:6]}.. (expected exactly 0 and 1)"), site_of(b))
     # padded bit arrays
     n = 0
     for ty, size, err, im in sorted(ser_impls(facts), key=lambda x: x[0]):
@@ -158,6 +196,15 @@ def decoders(ctx, facts, siblings=True):
         if dc:
             oo = [(bb, t) for bb, t in b.calls() if (F.callee(t)[0] or "").endswith("Option::<T>::ok_or") and "decompress" in str(flow.expr_of(b, t["args"][0]))]
             okr = bool(oo) and flow.question_mark(b, oo[0][1]["d"][0]) is not None
+        if dc and not okr:
+            # `match point.decompress() { Some(p) => Ok(..), None => Err(..) }`: no Ok on the None arm, an Err there
+            from rules.C17 import variant_arms
+            oks_ = set(malsec.ok_blocks(b))
+            for sw_, pl_, arms_ in variant_arms(b, "std::option::Option", facts):
+                if "decompress" in str(flow.expr_of(b, {"cp": pl_}, max_depth=6)) and "None" in arms_ and arms_.get("Some") != arms_["None"]:
+                    nr = b.reachable(arms_["None"])
+                    errs_ = [bb for bb, idx, st in b.iter_assigns() if st["r"]["k"] == "agg" and st["r"].get("adt") == "std::result::Result" and st["r"].get("vn") == "Err" and bb in nr]
+                    okr = not (oks_ & nr) and bool(errs_) and bool(oks_ & b.reachable(arms_["Some"]))
         ctx.ob("GUARD-decode", "RP25519", okr, "non-canonical Ristretto encodings are rejected (decompress()?)" if okr else "RP25519 decoder does not reject encodings that fail to decompress", site_of(b))
     # sibling decoders of prime-order types (an encoding question: the reduced value itself is canonical)
     if not siblings:
